@@ -151,7 +151,7 @@ Proof. revert i j. induction l as [| a l IH]; intros [| i] [| j] H; cbn; auto; t
 
 (* ================================================================== the invariant *)
 Section Invariant.
-Variable lo : Z.          (* every position of the run lies in the window [lo, lo + 2^30) *)
+Variable lo : Z.          (* a lower bound of every head value ever read, e.g. the initial head cache *)
 
 (* a slot whose positive length word has been written *)
 Definition committed (cp : Z) (prods : list pstate) (s : slot) : Prop :=
@@ -232,14 +232,14 @@ Definition head' (R : ring) (cs : cstate) : Z :=
 
 Record Inv (cfg : config) : Prop := mkInv {
   i_cap : cap_ok (r_cap (g_ring cfg));
-  i_lo : 0 <= lo <= two61;
+  i_lo : 0 <= lo;
   i_hc : lo <= r_hc (g_ring cfg) <= r_head (g_ring cfg);
   i_h8 : r_head (g_ring cfg) mod 8 = 0;
   i_t8 : r_tail (g_ring cfg) mod 8 = 0;
   i_hh : r_head (g_ring cfg) <= head' (g_ring cfg) (g_cons cfg);
   i_tiled : tiled (r_cap (g_ring cfg)) (head' (g_ring cfg) (g_cons cfg)) (r_tail (g_ring cfg)) (r_slots (g_ring cfg));
   i_size : r_tail (g_ring cfg) - r_head (g_ring cfg) <= r_cap (g_ring cfg);
-  i_win : r_tail (g_ring cfg) + 2 * r_cap (g_ring cfg) <= lo + two30;
+  i_win : r_tail (g_ring cfg) + 2 * r_cap (g_ring cfg) <= two62;
   i_slots : Forall (fun s => committed (r_cap (g_ring cfg)) (g_prods cfg) s \/ inflight (g_prods cfg) s)
                    (r_slots (g_ring cfg));
   i_prods : forall i ps, nth_error (g_prods cfg) i = Some ps -> prod_ok (g_ring cfg) (Z.of_nat (S i)) ps;
@@ -333,7 +333,7 @@ Lemma inv_cas R cs prods i ps ps' t2 new :
   p_prog ps' = p_prog ps -> p_k ps' = p_k ps ->
   tiled (r_cap R) (r_tail R) t2 new -> new <> [] ->
   (forall s, In s (expect (Z.of_nat (S i)) ps') <-> In s new) ->
-  t2 - r_head R <= r_cap R -> t2 + 2 * r_cap R <= lo + two30 -> t2 mod 8 = 0 ->
+  t2 - r_head R <= r_cap R -> t2 + 2 * r_cap R <= two62 -> t2 mod 8 = 0 ->
   pc_ok (set_slots (set_tail R t2) (r_slots R ++ new)) ps' ->
   Inv (mkCfg (set_slots (set_tail R t2) (r_slots R ++ new)) cs (set_nth prods i ps')).
 Proof. intros [Icap Ilo Ihc Ih8 It8 Ihh Itl Isz Iwin Isl Ipr Ics] Hi E0 Hp Hk Tn Hne Hex Hsz Hwin Ht8 Hpc.
@@ -437,13 +437,6 @@ Qed.
 
 
 (* ---- the local computations of claim under the window ---- *)
-Lemma lacks_win m cp rq tl hd : 0 < cp <= two30 -> - two30 < tl - hd < two30 -> - two62 <= hd <= two62 -> - two62 <= tl <= two62 ->
-  lacks m cp rq tl hd = Ok (rq >? cp - (tl - hd)).
-Proof. intros Hc Hd Hh Ht. unfold lacks, avail, sub64, sub32.
-  rewrite chk64_ok by (apply in_i64_small; unfold two63, two62, two30 in *; lia). cbn [bind].
-  rewrite wrap32_id by (apply in_i32_small; unfold two31, two30 in *; lia).
-  rewrite chk32_ok by (apply in_i32_small; unfold two31, two30 in *; lia). reflexivity. Qed.
-
 Lemma expect_set_pc_nil tid ps pc :
   match pc with PPadHdr _ _ | PHdr _ | PCopy _ | PCommit _ => False | _ => True end ->
   expect tid (set_pc ps pc) = [].
@@ -522,7 +515,7 @@ Proof. intros Hc H0 H8 Hr Hr8 Hpd Hfit. pose proof (mod_range cp tl Hc) as Htm. 
 Lemma pstep_inv m cfg i ps R' ps' e :
   Inv cfg -> nth_error (g_prods cfg) i = Some ps ->
   pstep m (g_ring cfg) (Z.of_nat (S i)) ps = (R', ps', Some e) ->
-  r_tail R' + 2 * r_cap R' <= lo + two30 ->
+  r_tail R' + 2 * r_cap R' <= two62 ->
   Inv (mkCfg R' (g_cons cfg) (set_nth (g_prods cfg) i ps')).
 Proof.
   intros HI Hi Hstep Hwin'. destruct cfg as [R cs prods]. cbn [g_ring g_cons g_prods] in *.
@@ -544,7 +537,7 @@ Proof.
     + apply expect_set_pc_nil. exact I.
     + unfold pc_ok. cbn [set_pc p_pc]. exists typ, body. split; [apply at_write_set_pc; assumption | lia].
   - (* PReadTail *)
-    rewrite (lacks_win m (r_cap R) (rq_of body) (r_tail R) hd) in Hstep by (unfold two62, two61, two30 in *; lia).
+    rewrite (lacks_ok m (r_cap R) (rq_of body) (r_tail R) hd) in Hstep by (unfold two62, two30 in *; lia).
     destruct (rq_of body >? r_cap R - (r_tail R - hd)) eqn:L.
     + inversion Hstep; subst. eapply inv_pure; try eassumption; try reflexivity; try lia.
       * apply expect_nil_pc. rewrite Epc. exact I.
@@ -557,7 +550,7 @@ Proof.
       * apply D.
   - (* PReadHead1 *)
     destruct Pc as (Pt & Pt8).
-    rewrite (lacks_win m (r_cap R) (rq_of body) tl (r_head R)) in Hstep by (unfold two62, two61, two30 in *; lia).
+    rewrite (lacks_ok m (r_cap R) (rq_of body) tl (r_head R)) in Hstep by (unfold two62, two30 in *; lia).
     destruct (rq_of body >? r_cap R - (tl - r_head R)) eqn:L.
     + inversion Hstep; subst.
       destruct (finish_ok R' ps (Err InsufficientCapacity) Pw) as (A & B & C & D).
